@@ -206,7 +206,9 @@ RESERVED = {'self', 'cls', '__init__', 'Enum', 'Callable', 'int', 'str', 'bool',
 FRESH_Q = ['zq', 'zq_', 'zq__w', 'selfish', 'self_', 'cls2', 'Enum2', 'super_', 'rangex', 'var', 'name', 'block', 'assign', 'class_def', 'function_def_raw', 'if_12', 'x_0',
            'a' * 40, 'Zq', 'z',
            # spellings that start or end like something the templates / the transpiler look for by text
-           'IteratorState', 'ItemsViewModel', 'constant', 'post__init__', 'Embedded', 'std_x', 'CP_x', 'list_x', 'Callable2', 'Union_x', 'e', 'a']
+           'IteratorState', 'ItemsViewModel', 'constant', 'post__init__', 'Embedded', 'std_x', 'CP_x', 'list_x', 'Callable2', 'Union_x', 'e', 'a',
+           # ... or end like the receiver names (the parameter templates recognise self / cls in rendered text)
+           'oneself', 'subcls', 'x_self', 'this', 'T']
 FRESH_PAIRS = [('zq', 'zqq'), ('zq', 'zq_'), ('zqa', 'zq'), ('w__zq', 'zq'), ('selfish', 'self_'), ('var', 'var_'), ('name', 'names'), ('z', 'zz')]
 
 
@@ -321,7 +323,7 @@ def immutable_of(pname: str, mapping: dict):
 
 
 def fresh_class(n: str) -> str:
-    if n.startswith('self') or n.startswith('cls') or n.startswith('super') or n.startswith('Enum') or n.startswith('range'):
+    if n.startswith('self') or n.startswith('cls') or n.startswith('super') or n.startswith('Enum') or n.startswith('range') or n.endswith('self') or n.endswith('cls'):
         return 'extends-reserved-word'
     if n in ('var', 'name', 'block', 'assign', 'class_def', 'function_def_raw', 'names', 'var_'):
         return 'grammar-tag'
